@@ -57,10 +57,16 @@ class Rig:
         self.socks = []
         self.ids = {}            # address tuple -> id
 
-    def arrive(self, peer, sockname, reported, hs):
+    SHUT_ERRORS = {"ENOTCONN": lambda: D.oserr(errno.ENOTCONN), "EBADF": lambda: D.oserr(errno.EBADF),
+                   "ECONNRESET": lambda: D.oserr(errno.ECONNRESET), "EPIPE": lambda: D.oserr(errno.EPIPE),
+                   "OSError": lambda: OSError("shutdown failed")}
+
+    def arrive(self, peer, sockname, reported, hs, shut=None):
         # fresh tuple objects: `incomer.ca is sock.peer` identifies the socket an incomer was built around
         sock = D.Sock(peer=tuple(list(addr(peer))), name=tuple(list(addr(sockname))))
         sock.sid = len(self.socks)
+        if shut:                  # this socket's shutdown() will raise (e.g. ENOTCONN after a reset, as Linux does)
+            sock.shut_exc = self.SHUT_ERRORS[shut]()
         for c in ("" if hs == "-" else hs):
             sock.handshakes.append(("ok",) if c == "d" else ("raise", D.tls_want(0)) if c == "w"
                                    else ("raise", ssl.SSLError(1, "handshake failure")))
@@ -87,6 +93,10 @@ class Rig:
             s.closeAllIx()
         elif name == "shutdown":
             s.shutdownIx(addr(op[1]))
+        elif name == "shutsend":
+            s.shutdownSendIx(addr(op[1]))
+        elif name == "shutrecv":
+            s.shutdownReceiveIx(addr(op[1]))
         elif name == "close":
             s.closeIx(addr(op[1]))
         elif name == "remove":
@@ -142,7 +152,9 @@ class CHECK(core.Check):
     N_SEARCH = 3000
     RULE = ("a case = Server or ServerTls and a history over: arrive(peer, sockname, reported address, handshake script) "
             "with peers drawn from 3 addresses (so they repeat), serviceAccepts / serviceAxes / serviceCxes / "
-            "serviceConnects / serviceAll, shutdownIx, closeIx, closeAllIx, removeIx(shutclose 0|1). Exhaustive: every "
+            "serviceConnects / serviceAll, shutdownIx / shutdownSendIx / shutdownReceiveIx, closeIx, closeAllIx, removeIx(shutclose "
+            "0|1); 30% of the sockets raise from shutdown() (ENOTCONN, EBADF, ECONNRESET, EPIPE, errno-less OSError) and every "
+            "operation that shuts a stale entry down meets each of those. Exhaustive: every "
             "sequence of length <= 4 (quick) / <= 5 (thorough) over 9 operations, on both servers; random: histories of up "
             "to 40 operations, 5% malformed arrivals; plus every batch of 2-3 arrivals from 2 addresses drained by a single service call.  Non-trivial = some address was accepted twice or an entry was "
             "closed/removed after being accepted; distinct by the whole case.")
@@ -170,7 +182,7 @@ class CHECK(core.Check):
                   "Server/ServerTls table code validated by the correspondence runs; the doubles; odict semantics as "
                   "transcribed. Not covered: real listen sockets, the TLS record layer, Peer class.")
 
-    OPS = [["arrive", 5, EHA, 5, "d"], ["arrive", 6, EHA, 6, "wd"], ["connects"], ["all"], ["close", 5],
+    OPS = [["arrive", 5, EHA, 5, "d", "ENOTCONN"], ["arrive", 6, EHA, 6, "wd"], ["connects"], ["all"], ["close", 5],
            ["remove", 5, 1], ["remove", 5, 0], ["shutdown", 5], ["accepts"]]
 
     def exhaustive(self, tier):
@@ -180,6 +192,14 @@ class CHECK(core.Check):
                 for pre in ([], [["arrive", 5, EHA, 5, "d"], ["connects"]]):
                     for call in (["connects"], ["axes"], ["all"]):
                         yield {"tls": tls, "ops": pre + [["arrive", p, EHA, p, "d"] for p in peers] + [call, ["connects"]]}
+            # a stale entry whose socket's shutdown() raises each member of the OSError family, met by every operation
+            # that shuts it down: accept from the same address, removeIx, closeIx, shutdown*Ix, closeAllIx
+            for err in sorted(Rig.SHUT_ERRORS):
+                for touch in (["arrive", 5, EHA, 5, "d", err], ["remove", 5, 1], ["close", 5], ["shutdown", 5],
+                              ["shutsend", 5], ["shutrecv", 5], ["closeall"]):
+                    tail = [["connects"]] if touch[0] == "arrive" else []
+                    yield {"tls": tls, "ops": [["arrive", 5, EHA, 5, "d", err], ["connects"], list(touch)] + tail +
+                                               [["arrive", 5, EHA, 5, "d"], ["connects"], ["remove", 5, 1]]}
         L = 5 if tier == "thorough" else 4
         for tls in (0, 1):
             for n in range(1, L + 1):
@@ -201,7 +221,8 @@ class CHECK(core.Check):
                     reported = peer if y < 0.95 else rng.choice([5, 6, 7, 8])
                     sockname = EHA if y > 0.05 or y >= 0.95 else 8
                     hs = rng.choice(["d", "d", "wd", "w", "wwd", "-", "f", "wf"]) if tls else "-"
-                    ops.append(["arrive", peer, sockname, reported, hs])
+                    ops.append(["arrive", peer, sockname, reported, hs] +
+                               ([rng.choice(sorted(Rig.SHUT_ERRORS))] if rng.random() < 0.3 else []))
                 elif x < 0.55:
                     ops.append(["connects"])
                 elif x < 0.62:
@@ -217,7 +238,7 @@ class CHECK(core.Check):
                 elif x < 0.92:
                     ops.append(["remove", rng.choice([5, 6, 7]), rng.choice([1, 1, 1, 0])])
                 elif x < 0.97:
-                    ops.append(["shutdown", rng.choice([5, 6, 7])])
+                    ops.append([rng.choice(["shutdown", "shutsend", "shutrecv"]), rng.choice([5, 6, 7])])
                 else:
                     ops.append(["closeall"])
             yield {"tls": tls, "ops": ops}
@@ -226,7 +247,8 @@ class CHECK(core.Check):
     def requests(self, case):
         out = ["reset %s %d %d" % (MODEL, case["tls"], EHA)]
         for op in case["ops"]:
-            out.append(" ".join(str(x) for x in op))
+            # what a socket's shutdown() raises is swallowed by the code: the model has no such parameter
+            out.append(" ".join(str(x) for x in (op[:5] if op[0] == "arrive" else op)))
         peers = [op[1] for op in case["ops"] if op[0] == "arrive"]
         out.append("region D14b %d %s" % (case["tls"], " ".join(str(p) for p in peers)))
         return out
@@ -341,6 +363,10 @@ class CHECK(core.Check):
                     if sh == 0 and not cl:
                         return ("%s: pending handshake for address %d (socket %d) was replaced without being shut down"
                                 % (what, ca, sid))
+            if op[0] in ("shutdown", "shutsend", "shutrecv", "close") and op[1] in before and status != "ok":
+                return "%s: raised %s on a present address (whatever the socket's shutdown() raises is not the caller's business)" % (what, status)
+            if op[0] == "closeall" and status != "ok":
+                return "%s: raised %s" % (what, status)
             if op[0] == "remove":
                 if op[1] in after:
                     return "%s: entry still in the table" % what
